@@ -44,6 +44,21 @@ Theorem C09_after_every_prefix : forall (compact : bool) (cs : list (Z * cmd)) (
 Proof. exact agree_every_prefix. Qed.
 Print Assumptions C09_after_every_prefix.
 
+(* (4b) local_deletion: for ARBITRARY timestamps (the Map model does not look at them there) *)
+Theorem C09_local_any_timestamps : forall (cs : list (Z * cmd)) (key : bytes),
+  all_agree (map_run false cs m_init) key.
+Proof. exact agree_local_any_timestamps. Qed.
+Print Assumptions C09_local_any_timestamps.
+
+(* (4c) under wait_compact the increasing-timestamp hypothesis can not be dropped: HSETNX k a 1; HCLEAR k;
+   HSETNX k b 1 all at ts 5 leave HLEN 1 with two fields in HKEYS (the generation of a re-created collection is its
+   creation timestamp; open finding of C10, replayed on the Go code with one multi-request list) *)
+Theorem C09_equal_timestamps_refuted :
+  let c := alook empty_coll k_ts (m_hash (map_run true equal_ts_hash m_init)) in
+  Map.hlen k_ts c = RInt 1 /\ Map.hkeys k_ts c = rbulks [b_a; b_b].
+Proof. exact equal_ts_breaks_agree. Qed.
+Print Assumptions C09_equal_timestamps_refuted.
+
 (* (5) refuted on the code as it was before the fix commits (definitions of Data/PreFix.v): a member, field
        or score pair repeated inside one SADD / SREM / HMSET / HDEL / ZADD / ZREM, a ZINCRBY that leaves the
        score unchanged, and LTRIM with both indexes before the head break the agreement.  The witnesses are
